@@ -79,6 +79,35 @@ CLAIMED = {
             "1-3 watches are collected by the real agent with and without the budget being hit and the table + watch "
             "results must equal the machine's. Known finding: a watch on locals() dangles (listed).",
             TRUSTED + "; object identity is CPython id() for objects alive during the event"),
+    'C01': (['Guard', 'Trace_Guard', 'Dispatch', 'Trace_Dispatch'],
+            "TLA+ spec Guard.tla (sections of the event handler x fault kinds, invariants NeverEscapes / StaysInstalled) "
+            "model-checked with TLC; a fault raised at every line the real handler executes (and in every plugin "
+            "callback) for 10 configuration x event cases, each run validated against the spec by TLC; differential "
+            "live runs of generated host programs with and without the agent, traces validated by Trace_Dispatch",
+            "The guard structure is tiny and exhaustively checked; the binding is fault enumeration over every executed "
+            "agent line (~2,000 sites per case, both Exception and BaseException; a 120-site sample per case in quick) "
+            "plus differential runs of random programs (recursion, generators, exceptions, threads). Fault enumeration "
+            "over the enumerated cases, exploration over programs.",
+            TRUSTED + "; the outer guard's own try/return/except lines and `with` re-visits are not fault sites"),
+    'C03': (['Dispatch', 'MC_Dispatch', 'Trace_Dispatch'],
+            "TLA+ spec Dispatch.tla (CPython event streams per thread, Fires/Matching, invariants Placement, action "
+            "properties NoMiss / NoActionElsewhere) model-checked with TLC; live executions of script-driven host "
+            "programs under the real agent logged per trace event and validated against the spec by TLC (fired set = "
+            "Matching at every event)",
+            "Exhaustive within bounds on the model (1-2 thread idents, <=6 events, two files with equal function names, "
+            "two tracepoints on one line, method tracepoints); bound to the code by validating every event of live runs "
+            "(thousands of events per run set, threads started after installation, never-executed locations). Programs "
+            "beyond the bounds are explored, not exhausted.",
+            TRUSTED + "; tracepoints are installed before the program starts; limiter disabled via fire_count=-1"),
+    'C15': (['Dispatch', 'MC_Dispatch', 'Trace_Dispatch'],
+            "TLA+ spec Dispatch.tla (pending-callback stack per thread ident with ident reuse; invariants ExactlyOnce, "
+            "ClosedWhenInvocationEnds, SameThread, NothingLeft) model-checked with TLC incl. the TopOnly deviation; live "
+            "runs with span and capture tracepoints logged (open/close per event, captured value vs the real result "
+            "of the opening invocation) and validated by TLC on the property's window",
+            "Exhaustive within bounds on the model; live runs cover recursion, nesting, generators, exception unwinding "
+            "and threads reusing idents. Trace validation judges the window the property states (not one matching "
+            "algorithm). Known finding: captures in nested same-name invocations carry the inner result (listed).",
+            TRUSTED),
 }
 
 NOT_YET = {}
